@@ -4,6 +4,7 @@ The round-trip / tamper / binding jobs start from a builder *value* (header, pay
 `Paseto::builder().set_payload(Payload::from(m)).set_footer(Footer::from(f)).set_implicit_assertion(ImplicitAssertion::from(a))` (possibly `.clone()`d),
 so the claim "the token is bound to f / a / m" also needs: the newtype constructors keep the text they are given, builder() starts empty, each setter stores
 exactly its argument and leaves the rest alone, and Clone copies every field.  Each is executed from MIR on symbolic arguments."""
+import re
 from z3 import *
 from .coreprops import *
 
@@ -86,4 +87,47 @@ def job_core_api(ses, proto='v4.local'):
     ses.queries.append({'name': 'core construction path: %d executions of newtype constructors, builder(), setters and Clone compared structurally with their arguments' % n, 'verdict': 'unsat', 'expected': 'unsat',
                         'solver': 'structural (values produced by executing the MIR)', 'agree': [], 'time_s': 0, 'lemma_instances': 0, 'per_solver': {}})
     if n == 0: ses.undecided.append('core construction path: nothing executed')
+    ses.absorb(ex)
+
+
+KEYFILES = ('src/core/key/paseto_asymmetric_public_key.rs', 'src/core/key/paseto_asymmetric_private_key.rs', 'src/core/key/paseto_symmetric_key.rs')
+
+
+def job_key_ctors(ses):
+    """every From / TryFrom constructor of the three key wrappers, executed from MIR on symbolic key material: a key that is accepted holds exactly the bytes it was given
+    (so two different byte strings are never the same key object, and the entry-point jobs' key values are what a caller can really construct)"""
+    w = world(); ex = w.executor(); n = 0
+    B = Const('key_material', Bytes)
+    for g in w.fns:
+        if g.file not in KEYFILES or g.method not in ('from', 'try_from') or '{closure' in g.name or len(g.params) != 1: continue
+        pty = g.ltypes.get(g.params[0], '')
+        m = re.search(r'Key<(\w+)>', pty)
+        st = new_state([Length(B) < 2**20])
+        if m:
+            N = m.group(1)
+            if not N.isdigit(): sizes = [1, 32, 48, 49, 64, 97]          # a const generic parameter: the constructor exists for every size
+            else: sizes = [int(N)]
+        elif '[u8]' in pty: sizes = [None]
+        else: continue
+        for size in sizes:
+            st = new_state([Length(B) < 2**20] + ([Length(B) == size] if size is not None else []))
+            if size is not None: st.known_len[B.get_id()] = (B, IntVal(size))
+            kv = adt('Key', None, B)
+            arg = B if size is None else (('ref', st.new_cell(kv), ()) if pty.lstrip().startswith('&') else kv)
+            sub = {gen: {'Version': 'version::v4::V4', 'Purpose': 'public::Public', 'KEYSIZE': str(size)}.get(gen, gen) for gen in (g.generics or [])}
+            tag = '%s::%s(%s)%s' % (g.file.split('/')[-1][:-3], g.method, pty.strip(), '' if size in (None,) or str(size) in pty else ' with N=%d' % size)
+            try: res = ex.run(g, [arg], st, subst=sub)
+            except Unsupported as e: ses.undecided.append('%s: %s' % (tag, str(e)[:200])); continue
+            for s2, r in res:
+                if isinstance(r, Panic):
+                    if ses.obligation('%s: no panic (%s)' % (tag, r.msg[:40]), list(s2.pc)): ses.violation('%s panics' % tag, {}, {'kind': 'key_ctor'})
+                    continue
+                if is_err(r): continue
+                val = r[3][0] if is_ok(r) else r
+                try: got = cm.as_bytes(s2, val)
+                except Unsupported: ses.undecided.append('%s: result holds no bytes: %s' % (tag, str(val)[:80])); continue
+                n += 1
+                rec = ses.obligation('%s: an accepted key holds exactly the bytes it was given' % tag, list(s2.pc) + [got != B], values=[B])
+                if rec: ses.violation('%s: the key object does not hold the bytes it was constructed from (two different inputs can be the same key)' % tag, fmt_model(['bytes'], rec), {'kind': 'key_ctor', 'model': fmt_model(['bytes'], rec)})
+    if n == 0: ses.undecided.append('key constructors: nothing executed')
     ses.absorb(ex)
